@@ -252,6 +252,10 @@ class UniformMPS(MPS):
         hdf5_saver.save(self._C, subpath + 'tensors_C')
         hdf5_saver.save(self.chinfo, subpath + 'chinfo')
         hdf5_saver.save(self.segment_boundaries, subpath + 'segment_boundaries')
+        hdf5_saver.save(self.unit_cell_width, subpath + 'unit_cell_width')
+        if hasattr(self, '_S'):  # singular values, defined in diagonal gauge only
+            hdf5_saver.save(self._S, subpath + 'singular_values')
+        h5gr.attrs['diagonal_gauge'] = self.diagonal_gauge
         h5gr.attrs['valid_umps'] = self.valid_umps
         h5gr.attrs['norm'] = self.norm
         h5gr.attrs['grouped'] = self.grouped
@@ -415,6 +419,16 @@ class UniformMPS(MPS):
         obj.grouped = hdf5_loader.get_attr(h5gr, 'grouped')
         obj._transfermatrix_keep = hdf5_loader.get_attr(h5gr, 'transfermatrix_keep')
         obj.chinfo = hdf5_loader.load(subpath + 'chinfo')
+        if 'unit_cell_width' in h5gr:
+            obj.unit_cell_width = hdf5_loader.load(subpath + 'unit_cell_width')
+        else:  # files of older versions: same default as in __init__
+            obj.unit_cell_width = len(obj.sites)
+        if 'singular_values' in h5gr:
+            obj._S = hdf5_loader.load(subpath + 'singular_values')
+        if 'diagonal_gauge' in h5gr.attrs:
+            obj.diagonal_gauge = bool(hdf5_loader.get_attr(h5gr, 'diagonal_gauge'))
+        else:
+            obj.diagonal_gauge = False
         obj.dtype = np.result_type(*(B.dtype for B in obj._AR))
         if 'segment_boundaries' in h5gr:
             obj.segment_boundaries = hdf5_loader.load(subpath + 'segment_boundaries')
